@@ -1087,7 +1087,11 @@ func (p *partition) handleReplicationRequest(msg *nats.Msg) {
 	}
 	replicator, ok := p.replicators[req.ReplicaID]
 	if !ok {
-		panic(fmt.Sprintf("No replicator for partition %s and replica %s", p, req.ReplicaID))
+		// The leader has no replicator for itself. The request comes off the
+		// network, so this must not bring the server down.
+		p.srv.logger.Warnf("Received replication request for partition %s from replica %s "+
+			"which has no replicator", p, req.ReplicaID)
+		return
 	}
 	replicator.request(replicationRequest{req, msg, received})
 }
